@@ -24,7 +24,7 @@ FLOORS = {
     'thorough': {'evaluations': 200000, 'distinct_nontrivial': 3000, 'mode_a': 100000, 'mode_b': 50000,
                  'in_property': 20000, 'TypeError_observed': 150000},
 }
-BUDGET = {'quick': 30000, 'thorough': 260000}
+BUDGET = {'quick': 30000, 'thorough': 2000000}
 TIMEOUT = {'quick': 900, 'thorough': 7200}
 
 KINDS = {
